@@ -436,7 +436,7 @@ func TestC04SignedEndpoints(t *testing.T) {
 	rec := vt.For("C04")
 	rec.Rule("generated (endpoint in {connect, update, update-legacy-form, peer, host, client, pool_addNode, pool_withdraw}) x (arbitrary parameter values: unicode, invalid UTF-8, nested protocols, extreme numbers) x (identity) x (alteration in {none, other method, other identity, nonce+-1, one parameter field, one signature byte, other key, empty, short, garbage, wrong alphabet, node-style vs wallet-style}) x (direct call | JSON-RPC round trip) against a pool with a live host, a billed client and a linked wallet; oracle: unaltered => never a verification error; altered => verification error and an unchanged full-state digest; non-trivial = every altered case; distinct by (endpoint, alteration, field/position class, transport)")
 	rec.Assume("don't-cares: recovery byte V of node-style signatures and bytes after the 65th (documented as dropped); fields outside the legacy signed payload for the deprecated vipnode_update form")
-	rapid.Check(t, func(rt *rapid.T) {
+	check(t, func(rt *rapid.T) {
 		rapid.SyncTest(rt, func(rt *rapid.T) {
 			f := newC04Fixture(rt)
 			defer f.s.close()
@@ -738,7 +738,7 @@ func TestC04Concurrent(t *testing.T) {
 	defer vt.Watch("TestC04Concurrent", 120*time.Second)()
 	rec := vt.For("C04")
 	rec.Rule("concurrent verification (free-running, -race): 2-8 goroutines submit correctly signed and single-alteration requests of different identities and endpoints at the same instant; oracle: every unaltered request passes verification and every altered one is refused, exactly as when sent alone; any race report fails; distinct by the request mix")
-	rapid.Check(t, func(rt *rapid.T) {
+	check(t, func(rt *rapid.T) {
 		rapid.SyncTest(rt, func(rt *rapid.T) {
 			f := newC04Fixture(rt)
 			defer f.s.close()
